@@ -146,31 +146,31 @@ var specs = []spec{
 	// the hybrid score of the three leaf searches and the weight default (nil -> 1)
 	{File: "shard/index/flat/flat.go", Func: "Search", Recv: "IndexFlat", Module: "Hybrid", Ext: true, FloatSym: true, Name: "flat_weight",
 		Structs: []structSpec{{File: "models/search.go", Name: "SearchVectorFlatOptions", Only: []string{"Weight"}}},
-		Frag: &fragSpec{First: "var weight float32 = 1", Last: "if options.Weight != nil {", Params: []string{"options models.SearchVectorFlatOptions"},
+		Frag: &fragSpec{First: "var weight float32", Last: "if options.Weight != nil {", Params: []string{"options models.SearchVectorFlatOptions"},
 			Locals: []string{"weight float32"}, Results: []string{"weight"}}},
 	{File: "shard/index/flat/flat.go", Func: "Search", Recv: "IndexFlat", Module: "Hybrid", Ext: true, FloatSym: true, Name: "flat_hybrid",
 		Frag: &fragSpec{Field: "HybridScore", FieldType: "float32", Params: []string{"weight float32", "dist float32"}}},
 	{File: "shard/index/vamana/vamana.go", Func: "Search", Recv: "IndexVamana", Module: "Hybrid", Ext: true, FloatSym: true, Name: "vamana_weight",
 		Structs: []structSpec{{File: "models/search.go", Name: "SearchVectorVamanaOptions", Only: []string{"Weight"}}},
-		Frag: &fragSpec{First: "weight := float32(1)", Last: "if query.Weight != nil {", Params: []string{"query models.SearchVectorVamanaOptions"},
+		Frag: &fragSpec{First: "weight := ", Last: "if query.Weight != nil {", Params: []string{"query models.SearchVectorVamanaOptions"},
 			Locals: []string{"weight float32"}, Results: []string{"weight"}}},
 	{File: "shard/index/vamana/vamana.go", Func: "Search", Recv: "IndexVamana", Module: "Hybrid", Ext: true, FloatSym: true, Name: "vamana_hybrid",
 		Structs: []structSpec{{File: "shard/index/vamana/distset.go", Name: "DistSetElem", Only: []string{"Distance"}}},
 		Frag: &fragSpec{Field: "HybridScore", FieldType: "float32", Params: []string{"elem DistSetElem", "weight float32"}}},
 	{File: "shard/index/text/text.go", Func: "Search", Recv: "indexText", Module: "Hybrid", Ext: true, FloatSym: true, Name: "text_weight",
 		Structs: []structSpec{{File: "models/search.go", Name: "SearchTextOptions", Only: []string{"Weight"}}},
-		Frag: &fragSpec{First: "weight := float32(1)", Last: "if options.Weight != nil {", Params: []string{"options models.SearchTextOptions"},
+		Frag: &fragSpec{First: "weight := ", Last: "if options.Weight != nil {", Params: []string{"options models.SearchTextOptions"},
 			Locals: []string{"weight float32"}, Results: []string{"weight"}}},
 	{File: "shard/index/text/text.go", Func: "Search", Recv: "indexText", Module: "Hybrid", Ext: true, FloatSym: true, Name: "text_hybrid",
 		Frag: &fragSpec{Field: "HybridScore", FieldType: "float32", Params: []string{"score float32", "weight float32"}}},
 	// the tf-idf score of one document: start value, the statements of the loop over the query terms (the loop itself ranges
 	// over a Go map: its order is not defined, the theorems quantify over it)
-	textScoreLocal("Search_score0", &fragSpec{First: "score := float32(0)", Last: "score := float32(0)", Locals: []string{"score float32"}, Results: []string{"score"}}),
-	textScoreLocal("Search_tf", &fragSpec{First: "tf := float32(freq)", Last: "tf := float32(freq)", Params: []string{"freq int", "docItem docCacheItem"},
+	textScoreLocal("Search_score0", &fragSpec{First: "score := ", Last: "score := ", Locals: []string{"score float32"}, Results: []string{"score"}}),
+	textScoreLocal("Search_tf", &fragSpec{First: "tf := ", Last: "tf := ", Params: []string{"freq int", "docItem docCacheItem"},
 		Locals: []string{"tf float32"}, Results: []string{"tf"}}),
-	textScore("Search_idf", &fragSpec{First: "idf := math.Log10(", Last: "idf := math.Log10(", Params: []string{"index *indexText", "termSetItem *setCacheItem"},
+	textScore("Search_idf", &fragSpec{First: "idf := ", Last: "idf := ", Params: []string{"index *indexText", "termSetItem *setCacheItem"},
 		Locals: []string{"idf float64"}, Results: []string{"idf"}}),
-	textScore("Search_scoreStep", &fragSpec{First: "freq := 0", Last: "score += tf * float32(idf)",
+	textScore("Search_scoreStep", &fragSpec{First: "freq := ", Last: "score += ",
 		Params:   []string{"index *indexText", "docItem docCacheItem", "term string", "termSetItem *setCacheItem", "score float32"},
 		Abstract: []string{"termSetItem, _ := index.setCache.Get(term)"}, Results: []string{"score"}}),
 	// the product quantiser: index arithmetic of its two tables and the two quantised distances (sums of table look-ups)
